@@ -264,7 +264,7 @@ def runCase (c : Sexp) : String := Id.run do
         out := out ++ s!" p{i}=" ++ toString st'.polls
         if shows.contains "spec" then
           out := out ++ s!" t{i}=" ++ (match res with | .ok v => (if v.truthy then "1" else "0") | _ => "-")
-          let probe0 : List Str := ["v", "w", "x", "unset", "neverAssigned", "OPTIMIZE"].map String.toList
+          let probe0 : List Str := ["v", "w", "x", "unset", "neverAssigned", "OPTIMIZE", "$v", "$neverAssigned"].map String.toList
           let probe := vars.foldl (fun acc (n, _) => if acc.contains n then acc else acc ++ [n]) probe0
           out := out ++ s!" a{i}=" ++ ",".intercalate (probe.map (fun n => hexOfStr n ++ ":" ++ showValue (Api.getVariable st'.env n)))
         i := i + 1
